@@ -239,7 +239,10 @@ class Builder:
             n = ['try', [['raise', E('HXc'), inner]],
                  [[['HX'], [T('r'), self.probe('r%d' % k)]]], None]
         elif kind == 'sub':
-            ns['sub%d' % k] = ['tmpl', inner, {'sd%d' % k: ['lit', 1]}]
+            # construction-time defaults and a value set with var(): two
+            # frames of its own on top of the caller's namespace
+            ns['sub%d' % k] = ['tmpl', inner, {'sd%d' % k: ['lit', 1]},
+                               {'tv%d' % k: ['lit', 2]}]
             n = ['var', N('sub%d' % k), []]
         elif kind == 'subtuple':
             # a sub-template called from an expression on the caller's
